@@ -23,7 +23,9 @@ NoLostCommit == (Img /\ cur.opens /\ cur.pct = 100) => TRUE
 AllComponentsAgree == (Img /\ cur.opens) => (cur.rootOK /\ cur.digestOK /\ cur.fsmHeightOK)
 HistoryIntact == (Img /\ cur.opens) => cur.archiveOK
 CanContinue == (Img /\ cur.opens) => cur.nextOK
-Preds == [Opens |-> Opens, AtCommittedVersion |-> AtCommittedVersion, AllComponentsAgree |-> AllComponentsAgree,
+\* the node could be created on an empty database and ran its block history at all
+Runs == cur.kind # "history-failed"
+Preds == [Runs |-> Runs, Opens |-> Opens, AtCommittedVersion |-> AtCommittedVersion, AllComponentsAgree |-> AllComponentsAgree,
           HistoryIntact |-> HistoryIntact, CanContinue |-> CanContinue]
 Report == (\A p \in DOMAIN Preds : Preds[p]) \/ PrintT(<<"VIOL", l - 1, Preds>>)
 =============================================================================
